@@ -18,7 +18,7 @@ try:
         s = open(p).read()
         assert old in s, "pattern not found"
         open(p, "w").write(s.replace(old, new))
-    env = dict(os.environ, NETCONAN_REPO=d)
+    env = dict(os.environ, NETCONAN_REPO=d, VERIF_NO_EVIDENCE="1")
     r = subprocess.run(["/verif/check", pid, "--tier", tier], env=env, stdout=subprocess.PIPE, stderr=subprocess.STDOUT, text=True)
     print("\n".join(r.stdout.splitlines()[-12:]))
     print("EXIT", r.returncode)
